@@ -230,6 +230,7 @@ def run(tier):
                       'the i-th; sweeps: each length/scalar argument across and beyond its documented domain; auth: every single-bit corruption of authenticated inputs')
 
 def replay(rec):
+    corpora.load_all()
     k = rec.get('kind')
     if k == 'none':
         return None
